@@ -18,13 +18,14 @@ class VerusResult:
         self.cmd = ""
 
 
-def run_verus(path, rlimit=None, threads=None, timeout=1800):
+def run_verus(path, rlimit=None, threads=None, timeout=1800, extra=()):
     cmd = [VERUS, path, "--output-json", "--time-expanded", "--error-format=json", "--multiple-errors", "40",
            "--triggers-mode", "silent"]
     # a fixed, generous resource limit (Verus default is 10): the preludes grow, proofs near the default limit would flip to "undecided"
     cmd += ["--rlimit", str(rlimit or int(os.environ.get("VERIF_RLIMIT", "40")))]
     if threads:
         cmd += ["--num-threads", str(threads)]
+    cmd += list(extra)
     res = VerusResult()
     res.cmd = " ".join(cmd)
     t0 = time.time()
